@@ -38,6 +38,20 @@ def val(I, obj, mname, avail):
     return r[0] if isinstance(r, tuple) else r
 
 
+class SignOrder(RankOrder):
+    """all that is known of the generic real wavenumber: it is positive.  A comparison with zero is answered; a
+    comparison with any other constant (a cut-off inside the filter) has no answer for the generic element - the
+    concrete vectors of ``imaginary_counts`` put witnesses on either side of it, here it is Unsupported"""
+
+    def __init__(self, name):
+        RankOrder.__init__(self, {name: 1}, const_ranks=False)
+
+    def rank(self, r):
+        if isinstance(r, Rat) and r.iszero():
+            return Fr(0)
+        return RankOrder.rank(self, r)
+
+
 # ----------------------------------------------------------------------
 # mode table: every class that can sit in a mode slot or in misc_models
 
@@ -66,7 +80,7 @@ def mode_instances(I, repo, suffix='', closed_only=False, only=None):
         # vibrational models are built by their own constructors from a vector (of any length) of real wavenumbers
         # nu: what they cache, and under which names, is private
         saved_order = I.order
-        I.order = RankOrder({'nu' + suffix: 1}, const_ranks=True)   # real wavenumbers: nu > 0 while they are built
+        I.order = SignOrder('nu' + suffix)      # real wavenumbers: nu > 0 while they are built, nothing else is known
         try:
             return ctor(qual, vib_wavenumbers=Elem(D.sym('nu' + suffix)), **kw)
         finally:
@@ -283,6 +297,17 @@ def ref_forms(run, repo, I, store):
         'Einstein U/RT = u/kT + 3(x/2 + x/(e^x-1))')
     chk('EinsteinVib', 'SoR', 3 * (xe * ee / (1 - ee) - D.ln(1 - ee)), 'Einstein S/R = 3(x/(e^x-1) - ln(1-e^-x))')
     chk('EinsteinVib', 'CvoR', 3 * xe * xe * ee / ((1 - ee) * (1 - ee)), 'Einstein Cv/R = 3 x^2 e^x/(e^x-1)^2')
+    # partition function: the closed form the class documents (Sandler), q = e^(-u/kT) e^(-x/2)/(1 - e^-x) - the
+    # Boltzmann factor of the interaction energy times the harmonic oscillator of the Einstein frequency
+    obj_e = store['EinsteinVib'][0]
+    oq, fq = repo.find_method(obj_e.ci, 'get_q')
+    got_q = val(I, obj_e, 'get_q', {'T': T})
+    want_q = D.exp(-uE / (kb_eV * T)) * D.exp(-xe / 2) / (1 - ee)
+    run.check(same(got_q, want_q), 'REF.Einstein q', 'EinsteinVib.get_q', 'textbook',
+              'q_vib = %s, expected e^(-u/kT) e^(-x/2)/(1-e^-x) with x = theta_E/T: %s'
+              % (show(got_q, 200), show(want_q, 200)), oq.module, fq,
+              sig=lambda: 'got/expected = %s' % show(got_q / want_q, 160) if isinstance(got_q, Rat) else 'not a number')
+    n_ref += 1
     # rigid rotor
     sigma = D.sym('self.symmetrynumber')
     for g, dof in (('linear', 1), ('nonlinear', Fr(3, 2))):
@@ -424,6 +449,13 @@ def debye(run, repo, I, store):
     owner, fn = meta['CvoR']
     run.check(same(v['CvoR'], 3 * K), 'REF.debye Cv', 'DebyeVib.get_CvoR', 'textbook',
               'Cv/R is not 3 K(x): %s' % show(v['CvoR']), owner.module, fn)
+    # partition function (per oscillator, 3 per atom): q = exp(-u/3kT - 3x/8 - G(x)), so that -3 ln q is F/RT
+    oq, fq = repo.find_method(ci, 'get_q')
+    got_q = val(I, obj, 'get_q', {'T': T})
+    want_q = D.exp(-u / (3 * kb_eV * T) - Fr(3, 8) * xd - G)
+    run.check(same(got_q, want_q), 'REF.debye q', 'DebyeVib.get_q', 'textbook',
+              'q is not exp(-u/3kT - 3x/8 - G(x)) with x = theta_D/T and G the integral of x^2 ln(1-e^-x): %s'
+              % show(got_q, 200), oq.module, fq)
     # thermodynamic consistency of the textbook combination itself (cross-validates the oracle):
     # with the textbook integrands, I_K = 4 I_F - x^4/(e^x-1) and I_G = x^3/3 ln(1-e^-x) - I_F/3
     # (integration by parts; both sides vanish at x -> 0, their x-derivatives are compared here)
@@ -711,31 +743,42 @@ def aggregation(run, repo):
                       '%s' % (flag, op, show(total, 300)), owner.module, fn)
             n += 2
         # a mode that does not offer the quantity: an error by default; with raise_error=False it contributes the
-        # neutral element of the operation, announced by a warning unless raise_warning=False
-        for re_, rw_ in ((True, True), (False, True), (False, False)):
-            I = Interp(repo)
-            D = I.D
-            T, P = D.sym('T'), D.sym('P')
-            sp, modes = build(I, False, False)
-            del modes['rot_model'].opaque_methods[mname]
-            modes['rot_model'].missing.add(mname)
-            nwarn = len(I.warnings)
-            got = I.call_method(sp, mname, [], {'T': T, 'P': P, 'verbose': True, 'raise_error': re_,
-                                                'raise_warning': rw_})
-            key = 'mode without the quantity raise_error=%s raise_warning=%s' % (re_, rw_)
-            if re_:
-                ok = isinstance(got, Raised) and got.exc == 'AttributeError'
-                why = 'must raise AttributeError, got %s' % show(got, 120)
-            else:
-                exp = [ident if a == 'rot_model' else val(I, modes[a], mname, {'T': T, 'P': P}) for a in MODE_ATTRS]
-                ok = isinstance(got, ListV) and len(got) >= 5 and all(same(a, b) for a, b in zip(got.items[:5], exp)) \
-                    and (len(I.warnings) > nwarn) == rw_
-                why = 'must contribute %s for that mode and %s: got %s, %d warning(s)' % (
-                    show(ident), 'warn' if rw_ else 'stay silent', show(got, 200), len(I.warnings) - nwarn)
-            run.check(ok, 'AGG.missing-mode', 'StatMech.' + mname, key,
-                      'a mode that lacks %s with raise_error=%s, raise_warning=%s %s' % (mname, re_, rw_, why),
-                      owner.module, fn)
-            n += 1
+        # neutral element of the operation, announced by a warning unless raise_warning=False - in whichever slot the
+        # mode sits (each of the five mode slots, the references, an attached model)
+        slots_ = list(MODE_ATTRS) + ['references', 'misc_models']
+        if run.tier != 'thorough' and mname not in ('get_q', 'get_HoRT'):
+            slots_ = ['rot_model']
+        for slot in slots_:
+            for re_, rw_ in ((True, True), (False, True), (False, False)):
+                I = Interp(repo)
+                D = I.D
+                T, P = D.sym('T'), D.sym('P')
+                sp, modes = build(I, 'elements', 1)
+                holders = dict(modes, references=sp.parts['references'], misc_models=sp.parts['misc_models'][0])
+                del holders[slot].opaque_methods[mname]
+                holders[slot].missing.add(mname)
+                nwarn = len(I.warnings)
+                got = I.call_method(sp, mname, [], {'T': T, 'P': P, 'verbose': True, 'raise_error': re_,
+                                                    'raise_warning': rw_})
+                key = 'mode without the quantity%s raise_error=%s raise_warning=%s' % (
+                    '' if slot == 'rot_model' else ' in ' + slot, re_, rw_)
+                if re_:
+                    ok = isinstance(got, Raised) and got.exc == 'AttributeError'
+                    why = 'must raise AttributeError, got %s' % show(got, 120)
+                else:
+                    kw = {'T': T, 'P': P}
+                    exp = [ident if a_ == slot else val(I, modes[a_], mname, kw) for a_ in MODE_ATTRS]
+                    exp.append(ident if slot == 'references' else
+                               val(I, sp.parts['references'], mname, {'descriptors': sp.parts['elements'], 'T': T}))
+                    exp.append(ident if slot == 'misc_models' else val(I, sp.parts['misc_models'][0], mname, kw))
+                    ok = isinstance(got, ListV) and len(got) == len(exp) and \
+                        all(same(a_, b_) for a_, b_ in zip(got.items, exp)) and (len(I.warnings) > nwarn) == rw_
+                    why = 'must contribute %s for that mode and %s: got %s, %d warning(s)' % (
+                        show(ident), 'warn' if rw_ else 'stay silent', show(got, 200), len(I.warnings) - nwarn)
+                run.check(ok, 'AGG.missing-mode', 'StatMech.' + mname, key,
+                          'a mode (%s) that lacks %s with raise_error=%s, raise_warning=%s %s'
+                          % (slot, mname, re_, rw_, why), owner.module, fn)
+                n += 1
     # species-level twins incl. entropy-of-elements bookkeeping
     for sel in (None, True):
         I = Interp(repo)
@@ -802,12 +845,256 @@ def aggregation(run, repo):
 
 
 # ----------------------------------------------------------------------
+# species assembled from the REAL mode classes: the two halves - what a mode reports, what the species does with its
+# modes - put together
+
+ASSEMBLIES = (
+    # label, {slot: label of mode_instances}, ideal-gas translation?
+    ('ideal gas, nonlinear', {'trans_model': 'FreeTrans', 'vib_model': 'HarmonicVib',
+                              'rot_model': 'RigidRotor[nonlinear]', 'elec_model': 'GroundStateElec',
+                              'nucl_model': 'EmptyNucl'}, 1),
+    ('ideal gas, linear, quasi-RRHO', {'trans_model': 'FreeTrans', 'vib_model': 'QRRHOVib',
+                                       'rot_model': 'RigidRotor[linear]', 'elec_model': 'GroundStateElec'}, 1),
+    ('atom', {'trans_model': 'FreeTrans', 'vib_model': 'EmptyMode', 'rot_model': 'RigidRotor[monatomic]',
+              'elec_model': 'GroundStateElec'}, 1),
+    ('Einstein crystal', {'vib_model': 'EinsteinVib', 'elec_model': 'GroundStateElec'}, 0),
+    ('Debye crystal with a constant mode', {'vib_model': 'DebyeVib', 'nucl_model': 'ConstantMode'}, 0),
+)
+
+
+def real_species(run, repo):
+    """A species built, as a user builds it, from objects of the real mode classes (and, for the ideal gas, from the
+    classes and parameters of ``presets['idealgas']``) and asked through every StatMech getter at symbolic T, P.
+    Each entry of the verbose form must be what THAT mode object reports when it is asked directly with the same T, P
+    (and include_ZPE) - the neutral element for a slot that was not given -, the total their sum / product; the
+    species itself obeys the clauses of the property: S falls by ln(P2/P1) between two pressures with ideal-gas
+    translation and does not depend on P without, H - U and Cp - Cv are 1 resp. 0, G = H - S, F = U - S.  The species
+    is asked at a second T, P and at the first again, and a second species of the same make-up is asked in the same
+    interpreter (nothing is remembered by the species between calls).  What the aggregation rule cannot see with its
+    uninterpreted modes - how the package's own argument routing reads the signature of a real getter - is seen
+    here."""
+    ci = repo.cls(SM + '.StatMech')
+    sm = repo.module(SM)
+    methods = ['get_q'] + ['get_' + q for q in QUANT]
+    n = 0
+
+    def make(I, slots, suffix):
+        D = I.D
+        objs = {lab: ob for lab, ob, _, _, _ in mode_instances(I, repo, suffix=suffix, closed_only=True)}
+        cm_ = I.construct(repo.cls(SM + '.ConstantMode'), [],
+                          {k: D.sym('const.%s%s' % (k, suffix)) for k in ('q', 'Cv', 'Cp', 'U', 'H', 'S', 'F', 'G')},
+                          name='const')
+        if isinstance(cm_, Raised):
+            raise Unsupported('ConstantMode(q=..., ..., G=...) raises %s' % cm_.exc)
+        objs['ConstantMode'] = cm_
+        given = {slot: objs[lab] for slot, lab in slots.items()}
+        sp = I.construct(ci, [], dict(given, name='species' + suffix), name='species' + suffix)
+        if isinstance(sp, Raised):
+            raise Unsupported('StatMech(<objects of the mode classes>) raises %s' % sp.exc)
+        return sp, given, objs
+
+    def expected(I, given, mname, kw):
+        ident_ = C(1) if mname == 'get_q' else C(0)
+        exp = [val(I, given[a], mname, kw) if a in given else ident_ for a in MODE_ATTRS]
+        for a, e in zip(MODE_ATTRS, exp):
+            # a mode that does not answer when it is asked directly is the business of the per-mode rules (where it
+            # is outside the fragment: a number is expected); here the species is judged against its modes
+            if isinstance(e, Raised):
+                raise Unsupported('not a number: %s.%s of the mode in the %s slot, asked directly, is %s'
+                                  % (given[a].ci.name, mname, a, show(e, 80)))
+        return exp + [ident_, ident_], ident_          # no references, no attached models
+
+    def breakdown(I, sp, given, mname, kw, con, key, owner, fn, what):
+        nonlocal n
+        exp, ident_ = expected(I, given, mname, kw)
+        verbose = I.call_method(sp, mname, [], dict(kw, verbose=True))
+        total = I.call_method(sp, mname, [], dict(kw))
+        bad = None
+        if not (isinstance(verbose, ListV) and len(verbose) == len(exp)):
+            bad = 'the verbose form is %s' % show(verbose, 200)
+        else:
+            for slot, a_, b_ in zip(MODE_ATTRS + ('references', 'misc_models'), verbose.items, exp):
+                if not same(a_, b_):
+                    bad = 'the %s entry is %s, the mode itself reports %s' % (slot, show(a_, 200), show(b_, 200))
+                    break
+        run.check(bad is None, 'AGG.real-modes', con, key + ' verbose',
+                  '%s: every entry of the verbose form must be what the mode in that slot reports when it is asked '
+                  'directly with the same conditions (%s); %s' % (what, ', '.join(sorted(kw)), bad), owner.module, fn,
+                  sample='%s %s: verbose entries == the modes asked directly' % (con, key)
+                  if mname == 'get_SoR' else None)
+        agg = ident_
+        for e in exp:
+            agg = I.binop('*' if mname == 'get_q' else '+', agg, e)
+        run.check(same(total, agg), 'AGG.real-modes', con, key + ' total',
+                  '%s: the total is %s, the %s of what its modes report with the same conditions is %s'
+                  % (what, show(total, 200), 'product' if mname == 'get_q' else 'sum', show(agg, 200)),
+                  owner.module, fn)
+        n += 2
+        return total
+
+    all_methods = methods
+    for label, slots, ideal in ASSEMBLIES:
+        I = Interp(repo)
+        D = I.D
+        T, P, T2, P2 = D.sym('T'), D.sym('P'), D.sym('T2'), D.sym('P2')
+        sp, given, _ = make(I, slots, '')
+        # (the quasi-RRHO model offers no partition function: its get_q is a documented NotImplementedError)
+        methods = [m_ for m_ in all_methods if not (m_ == 'get_q' and 'QRRHOVib' in slots.values())]
+        tot = {}
+        for mname in methods:
+            owner, fn = repo.find_method(ci, mname)
+            con = 'StatMech.' + mname
+            what = 'species (%s) of real mode objects' % label
+            tot[mname] = breakdown(I, sp, given, mname, {'T': T, 'P': P}, con, label, owner, fn, what)
+            if mname == 'get_q':
+                for flag in (False, True):
+                    breakdown(I, sp, given, mname, {'T': T, 'P': P, 'include_ZPE': flag}, con,
+                              '%s include_ZPE=%s' % (label, flag), owner, fn, what)
+        # the same species at other conditions, and at the first ones again
+        # (first the pressure alone, then the temperature: a memo whose key lacks one of them goes stale at once)
+        hist = [('second P, first T', {'T': T, 'P': P2}), ('second T, second P', {'T': T2, 'P': P2})]
+        if run.tier == 'thorough':
+            hist.append(('first T, P again', {'T': T, 'P': P}))
+        some = methods if run.tier == 'thorough' else [m_ for m_ in methods if m_ in ('get_q', 'get_SoR', 'get_GoRT')]
+        for hname, kw in hist:
+            for mname in some:
+                owner, fn = repo.find_method(ci, mname)
+                breakdown(I, sp, given, mname, kw, 'StatMech.' + mname, '%s, %s' % (label, hname), owner, fn,
+                          'species (%s) of real mode objects, asked after it was asked at other conditions' % label)
+        # a second species of the same make-up (parameters of its own) in the same interpreter
+        sp_b, given_b, _ = make(I, slots, '#2')
+        for mname in some:
+            owner, fn = repo.find_method(ci, mname)
+            breakdown(I, sp_b, given_b, mname, {'T': T, 'P': P}, 'StatMech.' + mname, '%s, second species' % label,
+                      owner, fn, 'a second species (%s) made after the first was evaluated' % label)
+        # the clauses of the property on the species itself (a mode with user-set constants is quantified over for
+        # the additivity clause only: its eight numbers are whatever the user says)
+        if 'ConstantMode' in slots.values():
+            continue
+        owner, fn = repo.find_method(ci, 'get_SoR')
+        S = tot['get_SoR']
+        dS = deriv(I, S, 'P')
+        want = I.binop('/', C(-1), P) if ideal else C(0)
+        run.check(same(dS, want), 'DERIV.dS/dlnP', 'StatMech.get_SoR', label,
+                  'species (%s): dS/dP = %s; the entropy of a species must fall by ln(P2/P1) between two pressures '
+                  '(dS/dlnP = -1) with ideal-gas translation and not depend on P without' % (label, show(dS)),
+                  owner.module, fn)
+        S2 = I.call_method(sp, 'get_SoR', [], {'T': T, 'P': P2})
+        drop = sub(I, S, S2)
+        want = D.ln(P2) - D.ln(P) if ideal else C(0)
+        run.check(same(drop, want), 'DERIV.dS/dlnP', 'StatMech.get_SoR', label + ' two pressures',
+                  'species (%s): S/R(T, P) - S/R(T, P2) = %s, expected %s' % (label, show(drop, 200), show(want)),
+                  owner.module, fn, sample='species (%s): S(T, P) - S(T, P2) == %s' % (label, show(want)))
+        n += 2
+        for a, b, nm in (('get_HoRT', 'get_UoRT', 'H-U'), ('get_CpoR', 'get_CvoR', 'Cp-Cv')):
+            owner, fn = repo.find_method(ci, a)
+            diff = sub(I, tot[a], tot[b])
+            run.check(same(diff, C(ideal)), 'TWIN.' + nm, 'StatMech.' + a, label,
+                      'species (%s): %s - %s = %s but must be %d (RT with ideal-gas translation, zero without)'
+                      % (label, a[4:], b[4:], show(diff, 200), ideal), owner.module, fn)
+            n += 1
+        for g, h, s_ in (('get_GoRT', 'get_HoRT', 'get_SoR'), ('get_FoRT', 'get_UoRT', 'get_SoR')):
+            owner, fn = repo.find_method(ci, g)
+            want = I.binop('-', tot[h], tot[s_])
+            run.check(same(tot[g], want), 'TWIN.%s=%s-%s' % (g[4], h[4], s_[4]), 'StatMech.' + g, label,
+                      'species (%s): %s differs from %s - %s under identical T, P: residual %s'
+                      % (label, g[4:], h[4:], s_[4:], show(sub(I, tot[g], want), 200)), owner.module, fn)
+            n += 1
+    # the ideal gas as the documentation builds it: StatMech(**presets['idealgas'], <parameters>) - classes, not
+    # objects, in the mode slots; the constructor makes the modes from the parameters each class expects.  The species
+    # must report what the species assembled from objects with the same parameters reports
+    methods = all_methods
+    for geom in ('nonlinear', 'linear'):
+        I = Interp(repo, order=SignOrder('nu'))
+        D = I.D
+        T, P = D.sym('T'), D.sym('P')
+        from ..xlate import Frame
+        preset = Frame(I, sm, {}, None, None).ev(ast.parse("presets['idealgas']", mode='eval').body)
+        if not isinstance(preset, DictV) or not all(isinstance(k, str) for k in preset.d):
+            raise Unsupported("pmutt.statmech.presets['idealgas'] is not a dictionary of keyword arguments")
+        slots = {'trans_model': 'FreeTrans', 'vib_model': 'HarmonicVib', 'rot_model': 'RigidRotor[%s]' % geom,
+                 'elec_model': 'GroundStateElec'}
+        sp_o, given, objs = make(I, slots, '')
+        kw = dict(preset.d)
+        kw.update(name='ideal gas', n_degrees=D.sym('self.n_degrees'),
+                  molecular_weight=D.sym('self.molecular_weight'), vib_wavenumbers=Elem(D.sym('nu')),
+                  potentialenergy=D.sym('self.potentialenergy'), spin=D.sym('self.spin'), geometry=geom,
+                  rot_temperatures=Elem(D.sym('self.rot_temperatures')), symmetrynumber=D.sym('self.symmetrynumber'))
+        sp_p = I.construct(ci, [], kw, name='ideal gas')
+        owner0, fn0 = repo.find_method(ci, '__init__')
+        if isinstance(sp_p, Raised):
+            run.fail('AGG.preset', 'StatMech.__init__', 'idealgas ' + geom,
+                     "StatMech(**presets['idealgas'], <its required parameters>) raises %s" % sp_p.exc,
+                     owner0.module, fn0)
+            n += len(methods)
+            continue
+        for mname in methods:
+            owner, fn = repo.find_method(ci, mname)
+            got = I.call_method(sp_p, mname, [], {'T': T, 'P': P, 'verbose': True})
+            want, _ = expected(I, given, mname, {'T': T, 'P': P})
+            ok = isinstance(got, ListV) and len(got) == len(want) and all(same(a_, b_)
+                                                                          for a_, b_ in zip(got.items, want))
+            run.check(ok, 'AGG.preset', 'StatMech.' + mname, 'idealgas ' + geom,
+                      "the species StatMech(**presets['idealgas'], <parameters>) reports %s; the modes FreeTrans, "
+                      "HarmonicVib, RigidRotor, GroundStateElec made from the same parameters report %s"
+                      % (show(got, 200), show(ListV(want), 200)), owner.module, fn,
+                      sample="StatMech(**presets['idealgas'], ...).%s == the modes made directly" % mname
+                      if mname == 'get_GoRT' else None)
+            n += 1
+    return n
+
+
+# ----------------------------------------------------------------------
 # imaginary-frequency filter + cached fields, through the real constructors
 
 def filter_anchor(repo, ci):
     """where a finding about the wavenumbers a model counts is reported: the setter of the public property when the
     class has one, else its constructor"""
     return repo.find_method(ci, 'vib_wavenumbers.setter', missing_ok=True) or repo.find_method(ci, '__init__')
+
+
+class WitnessOrder(RankOrder):
+    """The ordering oracle of the wavenumber instances.  The ranks are WITNESS VALUES in 1/cm of the magnitudes the
+    property quantifies over (real modes 10-4500 1/cm, imaginary modes from a soft -30 1/cm to the -1500 1/cm of a
+    reaction coordinate, a substitute of 50 1/cm); a constant is its own value.  Every constant other than zero that
+    the interpreted code compares a wavenumber with is remembered (``seen``): the instances are then repeated with
+    witnesses on either side of it (and on it), so that a cut-off inside the filter - whatever its value - separates
+    two of the enumerated entries."""
+
+    def __init__(self, ranks):
+        RankOrder.__init__(self, ranks, const_ranks=True)
+        self.seen = set()
+
+    def __call__(self, a, op, b):
+        for x_, y_ in ((a, b), (b, a)):
+            if isinstance(x_, Rat) and isinstance(y_, Rat) and x_.is_const() and not x_.iszero() and \
+                    not (y_.is_const() or y_.iszero()) and self.rank(y_) is not None:
+                self.seen.add(Fr(x_.const_value()))
+        return RankOrder.__call__(self, a, op, b)
+
+
+def one_mode_value(I, ci, name, q, kw, avoid=()):
+    """get_<q> of a model of ONE real mode, as a function of the symbol ``name`` - the reference the vectors are
+    compared with.  While it is built and asked the symbol is an ordinary real mode (about 1000 1/cm, away from every
+    constant in ``avoid``), whatever witness value it has in the vector: a cut-off that the code under analysis
+    applies to the entries of the vector does not reach the reference"""
+    benign = Fr(1000)
+    while any(abs(benign - c_) * 5 < abs(c_) for c_ in avoid):
+        benign = benign * Fr(7, 10)
+    saved = I.order
+    I.order = RankOrder({name: benign}, const_ranks=True)
+    try:
+        one = I.construct(ci, [], {'vib_wavenumbers': ListV([I.D.sym(name)]), 'imaginary_substitute': None},
+                          name='one')
+        if isinstance(one, Raised):
+            raise Unsupported('%s([%s]) raises %s for one real mode' % (ci.name, name, one.exc))
+        return I.call_method(one, 'get_' + q, [], dict(kw))
+    finally:
+        I.order = saved
+
+
+WAVENUMBERS = {'w_real': 1200, 'w_real2': 3900, 'w3': 450, 'w_imag': -30, 'w_imag2': -1500, 'w_sub': 50,
+               'w_low': 12, 'w_low2': 20}
 
 
 def imaginary_counts(run, repo):
@@ -818,77 +1105,116 @@ def imaginary_counts(run, repo):
     n = 0
     # every pair of values a comparison inside the filter could see comes in every order the property allows: real
     # modes above, EQUAL TO and BELOW the substitute (a soft real mode of 20 1/cm next to a substitute of 50 1/cm is
-    # still a real mode and counts as it is), imaginary ones below zero
-    ranks = {'w_real': 5, 'w_imag': -5, 'w_imag2': -7, 'w_sub': 3, 'w_low': 1, 'w_low2': 2}
+    # still a real mode and counts as it is), imaginary ones below zero - a soft one and a stiff one
+    vectors = (
+        ('[imaginary, real, imaginary]', ('w_imag', 'w_real', 'w_imag2'), ('w_sub', 'w_real', 'w_sub'),
+         ('w_real',)),
+        ('[imaginary, imaginary, real]', ('w_imag', 'w_imag2', 'w_real'), ('w_sub', 'w_sub', 'w_real'),
+         ('w_real',)),
+        ('[real equal to the substitute, imaginary]', ('w_sub', 'w_imag'), ('w_sub', 'w_sub'), ('w_sub',)),
+        ('[imaginary, real equal to the substitute]', ('w_imag2', 'w_sub'), ('w_sub', 'w_sub'), ('w_sub',)),
+        ('[real below the substitute, imaginary, real]', ('w_low', 'w_imag', 'w_real'),
+         ('w_low', 'w_sub', 'w_real'), ('w_low', 'w_real')),
+        ('[real, real below the substitute, real below the substitute]', ('w_real', 'w_low2', 'w_low'),
+         ('w_real', 'w_low2', 'w_low'), ('w_real', 'w_low2', 'w_low')))
+
+    def one_vector(cname, ci, owner, fn, vname, vec, with_sub, without, sub_given, form, ranks, avoid=()):
+        """-> (instances, constants the code compared a wavenumber with)"""
+        n = 0
+        order = WitnessOrder(dict(ranks))
+        I = Interp(repo, order=order)
+        D = I.D
+        T = D.sym('T')
+        sub_v = D.sym('w_sub') if sub_given else None
+        valid = [D.sym(k) for k in (with_sub if sub_given else without)]
+        key = '%s substitute=%s%s' % (vname, 'given' if sub_given else 'None',
+                                       '' if form == 'list' else ' (numpy array)')
+        # the wavenumbers as the user hands them over: a list (or an array) whose numbers may well be whole
+        # numbers - [3825, 3710, 1582, -200] - while the substitute is any real number (12.5): an array that
+        # takes its element type from this container truncates what is stored into it
+        given = ListV([D.sym(k) for k in vec])
+        given.dtype = 'caller'
+        if form == 'array':
+            given.is_array = True
+        n_hz = len(I.dtype_hazards)
+        o = I.construct(ci, [], {'vib_wavenumbers': given, 'imaginary_substitute': sub_v}, name='self')
+        r = o
+        quantities = [('ZPE', {}), ('UoRT', {'T': T}), ('SoR', {'T': T}), ('CvoR', {'T': T})]
+        if cname == 'HarmonicVib':
+            quantities.append(('q', {'T': T}))
+        if isinstance(r, Raised):
+            run.fail('ORDER.filter', cname + '.vib_wavenumbers', key,
+                     'constructing the model from %s wavenumbers raises %s' % (vname, r.exc),
+                     owner.module, fn)
+            return len(quantities) + 1, order.seen
+        hz = I.dtype_hazards[n_hz:]
+        hm = [m_ for m_ in repo.modules.values() if hz and m_.relpath == hz[0][1]]
+        run.check(not hz, 'TYPE.int-buffer', cname + '.vib_wavenumbers', key,
+                  'while the model is built a value that is not a whole number (the substitute, a converted '
+                  'wavenumber) is stored into an array that has the element type of the container of '
+                  'wavenumbers the user supplied: for wavenumbers typed as whole numbers ([3825, 3710, 1582, '
+                  '-200]) the stored value is truncated (a substitute of 12.5 1/cm counts as 12 1/cm)',
+                  hm[0] if hm else owner.module, hz[0][0] if hz else fn)
+        n += 1
+        valid_names = with_sub if sub_given else without
+        witness = ', '.join('%s = %s 1/cm' % (k, ranks[k]) for k in dict.fromkeys(vec + (('w_sub',) if sub_given
+                                                                                        else ())))
+        for q, kw in quantities:
+            got = I.call_method(o, 'get_' + q, [], dict(kw))
+            want = C(1) if q == 'q' else C(0)
+            for nm_ in valid_names:
+                want = I.binop('*' if q == 'q' else '+', want,
+                               one_mode_value(I, ci, nm_, q, kw, avoid=order.seen | set(avoid)))
+            run.check(same(got, want), 'ORDER.filter', cname + '.vib_wavenumbers', key + ' ' + q,
+                      'every real entry must count as it is (also one below the substitute) and every '
+                      'imaginary entry must be %s, whatever else the vector holds: get_%s of a model '
+                      'built from %s is %s, expected the %s of the one-mode values over %s (witness: %s)'
+                      % ('replaced by the substitute' if sub_given else 'dropped', q, vname, show(got, 160),
+                         'product' if q == 'q' else 'sum', show(ListV(valid)), witness), owner.module, fn,
+                      sample='%s(%s, %s).get_%s == %s over %s'
+                      % (cname, vname, 'substitute' if sub_given else 'no substitute', q,
+                         'product' if q == 'q' else 'sum', show(ListV(valid))) if q == 'ZPE' else None)
+            n += 1
+        return n, order.seen
+
     for cname in ('HarmonicVib', 'QRRHOVib'):
         ci = repo.cls(SM + '.vib.' + cname)
         owner, fn = filter_anchor(repo, ci)
-        for vname, vec, with_sub, without in (
-                ('[imaginary, real, imaginary]', ('w_imag', 'w_real', 'w_imag2'), ('w_sub', 'w_real', 'w_sub'),
-                 ('w_real',)),
-                ('[imaginary, imaginary, real]', ('w_imag', 'w_imag2', 'w_real'), ('w_sub', 'w_sub', 'w_real'),
-                 ('w_real',)),
-                ('[real equal to the substitute, imaginary]', ('w_sub', 'w_imag'), ('w_sub', 'w_sub'), ('w_sub',)),
-                ('[imaginary, real equal to the substitute]', ('w_imag', 'w_sub'), ('w_sub', 'w_sub'), ('w_sub',)),
-                ('[real below the substitute, imaginary, real]', ('w_low', 'w_imag', 'w_real'),
-                 ('w_low', 'w_sub', 'w_real'), ('w_low', 'w_real')),
-                ('[real, real below the substitute, real below the substitute]', ('w_real', 'w_low2', 'w_low'),
-                 ('w_real', 'w_low2', 'w_low'), ('w_real', 'w_low2', 'w_low'))):
-            for sub_given, form in [(True, 'list'), (False, 'list')] + (
-                    [(True, 'array'), (False, 'array')] if run.tier == 'thorough' else []):
-                I = Interp(repo, order=RankOrder(dict(ranks), const_ranks=True))
-                D = I.D
-                T = D.sym('T')
-                sub_v = D.sym('w_sub') if sub_given else None
-                valid = [D.sym(k) for k in (with_sub if sub_given else without)]
-                key = '%s substitute=%s%s' % (vname, 'given' if sub_given else 'None',
-                                               '' if form == 'list' else ' (numpy array)')
-                # the wavenumbers as the user hands them over: a list (or an array) whose numbers may well be whole
-                # numbers - [3825, 3710, 1582, -200] - while the substitute is any real number (12.5): an array that
-                # takes its element type from this container truncates what is stored into it
-                given = ListV([D.sym(k) for k in vec])
-                given.dtype = 'caller'
-                if form == 'array':
-                    given.is_array = True
-                n_hz = len(I.dtype_hazards)
-                o = I.construct(ci, [], {'vib_wavenumbers': given, 'imaginary_substitute': sub_v}, name='self')
-                r = o
-                quantities = [('ZPE', {}), ('UoRT', {'T': T}), ('SoR', {'T': T}), ('CvoR', {'T': T})]
-                if cname == 'HarmonicVib':
-                    quantities.append(('q', {'T': T}))
-                if isinstance(r, Raised):
-                    run.fail('ORDER.filter', cname + '.vib_wavenumbers', key,
-                             'constructing the model from %s wavenumbers raises %s' % (vname, r.exc),
-                             owner.module, fn)
-                    n += len(quantities) + 1
-                    continue
-                hz = I.dtype_hazards[n_hz:]
-                hm = [m_ for m_ in repo.modules.values() if hz and m_.relpath == hz[0][1]]
-                run.check(not hz, 'TYPE.int-buffer', cname + '.vib_wavenumbers', key,
-                          'while the model is built a value that is not a whole number (the substitute, a converted '
-                          'wavenumber) is stored into an array that has the element type of the container of '
-                          'wavenumbers the user supplied: for wavenumbers typed as whole numbers ([3825, 3710, 1582, '
-                          '-200]) the stored value is truncated (a substitute of 12.5 1/cm counts as 12 1/cm)',
-                          hm[0] if hm else owner.module, hz[0][0] if hz else fn)
-                n += 1
-                ones = [I.construct(ci, [], {'vib_wavenumbers': ListV([wv]), 'imaginary_substitute': None},
-                                    name='one') for wv in valid]
-                for q, kw in quantities:
-                    got = I.call_method(o, 'get_' + q, [], dict(kw))
-                    want = C(1) if q == 'q' else C(0)
-                    for one in ones:
-                        want = I.binop('*' if q == 'q' else '+', want, I.call_method(one, 'get_' + q, [], dict(kw)))
-                    o2, f2 = repo.find_method(ci, 'get_' + q)
-                    run.check(same(got, want), 'ORDER.filter', cname + '.vib_wavenumbers', key + ' ' + q,
-                              'every real entry must count as it is (also one below the substitute) and every '
-                              'imaginary entry must be %s, whatever else the vector holds: get_%s of a model '
-                              'built from %s is %s, expected the %s of the one-mode values over %s'
-                              % ('replaced by the substitute' if sub_given else 'dropped', q, vname, show(got, 160),
-                                 'product' if q == 'q' else 'sum', show(ListV(valid))), owner.module, fn,
-                              sample='%s(%s, %s).get_%s == %s over %s'
-                              % (cname, vname, 'substitute' if sub_given else 'no substitute', q,
-                                 'product' if q == 'q' else 'sum', show(ListV(valid))) if q == 'ZPE' else None)
-                    n += 1
+        forms = [(True, 'list'), (False, 'list')] + (
+            [(True, 'array'), (False, 'array')] if run.tier == 'thorough' else [])
+        seen = set()
+        for vname, vec, with_sub, without in vectors:
+            for sub_given, form in forms:
+                k, cs = one_vector(cname, ci, owner, fn, vname, vec, with_sub, without, sub_given, form, WAVENUMBERS)
+                n += k
+                seen |= cs
+        # a constant the code compares a wavenumber with (a cut-off of any size - "imaginary modes beyond 100i are a
+        # reaction coordinate", "modes stiffer than 4000 1/cm are treated differently"): the vectors again with
+        # witnesses below, on and above it; constants met on the way are followed once more
+        done = set()
+        for depth in range(3):
+            todo = sorted(seen - done)
+            if not todo:
+                break
+            for cst in todo:
+                done.add(cst)
+                a_ = abs(cst)
+                for where, inner, outer in (('either side of', a_ / 2, a_ * 2), ('on and beyond', a_, a_ * 3),
+                                            ('just beside', a_ * Fr(99, 100), a_ * Fr(101, 100))):
+                    ranks = dict(WAVENUMBERS)
+                    if cst < 0:
+                        ranks.update(w_imag=-inner, w_imag2=-outer)
+                        vname, vec, with_sub, without = vectors[0]
+                    else:
+                        ranks.update(w_low=inner, w_real=outer)
+                        vname, vec, with_sub, without = vectors[4]
+                        vname = '[real, imaginary, real]'
+                    vname = '%s %s the constant %s' % (vname, where, float(cst))
+                    for sub_given in (True, False):
+                        k, cs = one_vector(cname, ci, owner, fn, vname, vec, with_sub, without, sub_given, 'list',
+                                           ranks, avoid=seen)
+                        n += k
+                        seen |= cs
     return n
 
 
@@ -897,11 +1223,12 @@ def cached_fields(run, repo):
     for cname, extra in (('HarmonicVib', {}), ('QRRHOVib', {})):
         ci = repo.cls(SM + '.vib.' + cname)
         for sub_given in (False, True):
-            I = Interp(repo, order=RankOrder({'w_real': 5, 'w_imag': -5, 'w_real2': 7, 'w_sub': 3, 'w3': 9},
-                                             const_ranks=True))
+            order = WitnessOrder(dict(WAVENUMBERS))
+            I = Interp(repo, order=order)
             D = I.D
             T = D.sym('T')
             wr, wi, wr2, ws, w3 = (D.sym(k) for k in ('w_real', 'w_imag', 'w_real2', 'w_sub', 'w3'))
+            names_of = {repr(D.sym(k)): k for k in ('w_real', 'w_imag', 'w_real2', 'w_sub', 'w3')}
             sub_v = ws if sub_given else None
             given = ListV([wr, wi, wr2])
             given.dtype = 'caller'          # the user's container may hold whole numbers
@@ -927,8 +1254,7 @@ def cached_fields(run, repo):
             # observed through a public getter (the zero-point energy is a sum over the modes that count): the
             # real wavenumbers are kept as they are and the imaginary one is dropped or replaced
             def one_mode(wv, q, kw):
-                one = I.construct(ci, [], {'vib_wavenumbers': ListV([wv]), 'imaginary_substitute': None}, name='one')
-                return I.call_method(one, 'get_' + q, [], kw)
+                return one_mode_value(I, ci, names_of[repr(wv)], q, kw, avoid=order.seen)
             got = I.call_method(o, 'get_ZPE', [], {})
             want = C(0)
             for wv in valid:
@@ -992,30 +1318,37 @@ def cached_fields(run, repo):
 # ----------------------------------------------------------------------
 # symmetry labels + identity of absent modes
 
+# the point-group labels the property quantifies over ("symmetry numbers given as numbers or as any documented
+# point-group label"): the thirteen labels the class documents, with the symmetry numbers of the paper it cites
+# (DOI 10.1007/s00214-007-0328-0, table 1).  The list is part of the rule; the docstring is documentation and is not
+# parsed - a second table, prose or another layout there changes nothing that is decided here
+POINT_GROUPS = (('C1', 1), ('Cs', 1), ('C2', 2), ('C2v', 2), ('C3v', 3), ('Cinfv', 1), ('D2h', 4), ('D3h', 6),
+                ('D5h', 10), ('Dinfh', 2), ('D3d', 6), ('Td', 12), ('Oh', 24))
+
+
 def symmetry_labels(run, repo):
     ci = repo.cls(SM + '.rot.RigidRotor')
-    doc = docstring(ci.node)
-    rows = re.findall(r'^\s*([A-Z][A-Za-z0-9]*)\s+(\d+)\s*$', doc, re.M)
+    rows = POINT_GROUPS
     run.floor('documented point groups', len(rows), 13)
-    cm = repo.module('pmutt.constants')
-    binds = cm.assigns.get('symmetry_dict', [])
-    if not binds:
-        raise AnchorError('constants.symmetry_dict not found')
     run.table('constants.symmetry_dict')
     owner, fn = repo.find_method(ci, '__init__')
     run.fn(owner.qual + '.__init__')
     for label, num in rows:
-        I = Interp(repo)
-        r = I.construct(ci, [], {'symmetrynumber': label, 'rot_temperatures': ListV([I.D.sym('th')]),
-                                 'geometry': 'linear'}, name='self')
-        got = None if isinstance(r, Raised) else get_public(I, r, 'symmetrynumber')     # as a user reads it
-        ok = not isinstance(r, Raised) and isinstance(got, Rat) and got.is_const() and \
-            got.const_value() == int(num)
-        run.check(ok, 'TABLE.pointgroup', 'RigidRotor.__init__', 'label:' + label,
-                  'documented point group %s (symmetry number %s) %s; constants.symmetry_dict is bound %d times and '
-                  'the last binding is the one consulted'
-                  % (label, num, 'raises ' + r.exc if isinstance(r, Raised) else 'resolves to %s' % show(got),
-                     len(binds)), owner.module, fn, sample='RigidRotor(symmetrynumber=%r) -> %s' % (label, num))
+        # every label with every geometry that has a rotation (the label is resolved before the geometry is looked at,
+        # so one geometry in the quick tier), and the number the label stands for given as a number
+        for geom in ('linear', 'nonlinear') if run.tier == 'thorough' else ('linear',):
+            I = Interp(repo)
+            r = I.construct(ci, [], {'symmetrynumber': label, 'rot_temperatures': ListV([I.D.sym('th')]),
+                                     'geometry': geom}, name='self')
+            got = None if isinstance(r, Raised) else get_public(I, r, 'symmetrynumber')     # as a user reads it
+            ok = not isinstance(r, Raised) and isinstance(got, Rat) and got.is_const() and \
+                got.const_value() == int(num)
+            run.check(ok, 'TABLE.pointgroup', 'RigidRotor.__init__',
+                      'label:' + label + ('' if geom == 'linear' else ' ' + geom),
+                      'RigidRotor(symmetrynumber=%r): the documented point group %s stands for the symmetry number %s, '
+                      'the constructor %s' % (label, label, num, 'raises ' + r.exc if isinstance(r, Raised)
+                                               else 'resolves it to %s' % show(got)),
+                      owner.module, fn, sample='RigidRotor(symmetrynumber=%r) -> %s' % (label, num))
     return len(rows)
 
 
@@ -1463,6 +1796,8 @@ def check(run, repo):
     run.floor('structure-derived rotational temperatures', n, 16)
     n = aggregation(run, repo)
     run.floor('aggregation instances', n, 60)
+    n = real_species(run, repo)
+    run.floor('species of real modes', n, 150)
     I, store, n_twin, n_deriv = check_modes(run, repo)
     run.floor('TWIN instances', n_twin, 50)
     run.floor('DERIV instances', n_deriv, 80)
@@ -1632,6 +1967,60 @@ MUTANTS = [
                 wavenumbers_out[i] = substitute
     return wavenumbers_out[wavenumbers_out > 0.]
 ''')]},
+    # white-box review, round 3
+    {'name': 'P keyword-only in FreeTrans.get_SoR: the routing by __code__ drops it', 'expect': ('AGG.real-modes', 'StatMech.get_SoR'),
+     'edits': [(TR, "    def get_SoR(self, T, P=c.P0('bar')):", "    def get_SoR(self, T, *, P=c.P0('bar')):")]},
+    {'name': 'P keyword-only in FreeTrans.get_q', 'expect': ('AGG.real-modes', 'StatMech.get_q'),
+     'edits': [(TR, "    def get_q(self, T, P=c.P0('bar')):", "    def get_q(self, T, *, P=c.P0('bar')):")]},
+    {'name': 'imaginary modes beyond 100i are dropped although a substitute is given',
+     'expect': ('ORDER.filter', 'vib_wavenumbers'),
+     'edits': [(V, '        elif substitute is not None:', '        elif substitute is not None and wavenumber > -100.:')]},
+    {'name': 'imaginary modes beyond 2000i are dropped although a substitute is given (cut-off outside the witnesses)',
+     'expect': ('ORDER.filter', 'vib_wavenumbers'),
+     'edits': [(V, '        elif substitute is not None:', '        elif substitute is not None and wavenumber > -2000.:')]},
+    {'name': 'real modes stiffer than 4200 1/cm are not counted',
+     'expect': ('ORDER.filter', 'vib_wavenumbers'),
+     'edits': [(V, '        if wavenumber > 0.:\n            # Real wavenumbers always added\n',
+                '        if wavenumber > 4200.:\n            continue\n'
+                '        elif wavenumber > 0.:\n            # Real wavenumbers always added\n')]},
+    {'name': 'Einstein q as 1/(2 sinh(x)) instead of 1/(2 sinh(x/2))', 'expect': ('REF.Einstein q', 'EinsteinVib.get_q'),
+     'edits': [(V, "        return np.exp(-u/c.kb('eV/K')/T) \\\n            * (np.exp(-theta_E/2./T)/(1. - np.exp(-theta_E/T)))",
+                "        return np.exp(-u/c.kb('eV/K')/T)/(2.*np.sinh(theta_E/T))")]},
+    {'name': 'Debye q with the zero-point term of three oscillators', 'expect': ('REF.debye q', 'DebyeVib.get_q'),
+     'edits': [(V, '                      -3./8.*self.debye_temperature/T - G)', '                      -9./8.*self.debye_temperature/T - G)')]},
+    {'name': 'neutral element not handed on for the translational slot', 'expect': ('AGG.missing-mode', 'StatMech.get_q'),
+     'edits': [(SMI, '            _get_mode_quantity(mode=self.trans_model,\n'
+                     '                               method_name=method_name,\n'
+                     '                               raise_error=raise_error,\n'
+                     '                               raise_warning=raise_warning,\n'
+                     '                               default_value=default_value,\n',
+                '            _get_mode_quantity(mode=self.trans_model,\n'
+                '                               method_name=method_name,\n'
+                '                               raise_error=raise_error,\n'
+                '                               raise_warning=raise_warning,\n')]},
+    {'name': 'raise_error not handed on for the references', 'expect': ('AGG.missing-mode', 'StatMech.get_'),
+     'edits': [(SMI, '                _get_mode_quantity(mode=self.references,\n'
+                     '                                   method_name=method_name,\n'
+                     '                                   raise_error=raise_error,\n',
+                '                _get_mode_quantity(mode=self.references,\n'
+                '                                   method_name=method_name,\n')]},
+    {'name': 'species memoises get_quantity without the pressure in the key', 'expect': ('AGG.real-modes', 'StatMech.get_SoR'),
+     'edits': [(SMI, '        self.name = name\n        self.smiles = smiles\n',
+                '        self.name = name\n        self._memo = {}\n        self.smiles = smiles\n'),
+               (SMI, '        # Get the default value\n        operation = operation.lower()\n',
+                "        memo_key = (method_name, operation, verbose, use_references, kwargs.get('T'),\n"
+                "                    kwargs.get('include_ZPE'))\n"
+                '        if memo_key in self._memo:\n            return self._memo[memo_key]\n'
+                '        # Get the default value\n        operation = operation.lower()\n'),
+               (SMI, '                                          operation=operation)\n        return quantity\n',
+                '                                          operation=operation)\n'
+                '        self._memo[memo_key] = quantity\n        return quantity\n')]},
+    {'name': 'geometry keyword-only in RigidRotor.__init__: a species made from the preset loses it',
+     'expect': ('AGG.preset', 'StatMech'),
+     'edits': [(R_, '                 rot_temperatures=None,\n                 geometry=None,\n',
+                '                 rot_temperatures=None,\n                 *,\n                 geometry=None,\n')]},
+    {'name': 'point group C2v stands for 4', 'expect': ('TABLE.pointgroup', 'RigidRotor.__init__'),
+     'edits': [('pmutt/constants.py', "    'C2v': 2,\n", "    'C2v': 4,\n")]},
     {'name': 'species F ignores S_elements', 'expect': ('TWIN.F=U-S', 'StatMech.get_FoRT'),
      'edits': [(SMI, '''        if not S_elements:
             S_ele = 0
@@ -1644,6 +2033,20 @@ MUTANTS = [
 ]
 _UNIT_MASS = "        unit_mass = self.molecular_weight *\\\n            c.convert_unit(initial='g', final='kg')/c.Na\n"
 EQUIV = [
+    # white-box review, round 3
+    {'name': 'a second table (molecules and their symmetry numbers) in the RigidRotor docstring',
+     'edits': [(R_, '            See DOI for more details: 10.1007/s00214-007-0328-0\n',
+                '            Symmetry numbers of some common molecules, for orientation:\n\n'
+                '            ===========    ===============\n            Molecule       symmetry number\n'
+                '            ===========    ===============\n            HCl            1\n'
+                '            N2             2\n            CH4            12\n'
+                '            ===========    ===============\n\n'
+                '            See DOI for more details: 10.1007/s00214-007-0328-0\n')]},
+    {'name': 'Einstein q as 1/(2 sinh(x/2))',
+     'edits': [(V, "        return np.exp(-u/c.kb('eV/K')/T) \\\n            * (np.exp(-theta_E/2./T)/(1. - np.exp(-theta_E/T)))",
+                "        return np.exp(-u/c.kb('eV/K')/T)/(2.*np.sinh(theta_E/2./T))")]},
+    {'name': 'imaginary modes compared with a cut-off that changes nothing (substitute for every non-positive entry)',
+     'edits': [(V, '        elif substitute is not None:', '        elif substitute is not None and wavenumber <= 0.:')]},
     # white-box review, round 2: refactorings that were reported by mistake
     {'name': 'molecular_weight as a property that also keeps the mass of one molecule',
      'edits': [(TR, "        else:\n            self.molecular_weight = molecular_weight\n",
